@@ -28,6 +28,7 @@ type TFeat struct {
 	Type string `json:"type"`
 	Role string `json:"role"`
 	Fns  []TFn  `json:"fns"`
+	Desc int    `json:"desc"` // version of the description (1 = the default one, 2 = changed by the application)
 }
 type TNote struct {
 	Chg   string  `json:"chg"`
@@ -68,6 +69,19 @@ func sortFeats(fs []TFeat) {
 		sort.Slice(fs[i].Fns, func(a, b int) bool { return fs[i].Fns[a].Fn < fs[i].Fns[b].Fn })
 	}
 	sort.Slice(fs, func(i, j int) bool { return fmt.Sprint(fs[i].E, fs[i].No) < fmt.Sprint(fs[j].E, fs[j].No) })
+}
+
+func descVersion(d *model.DescriptionType, t, r string) int {
+	if d == nil {
+		return 0
+	}
+	switch string(*d) {
+	case expectedDesc(t, r):
+		return 1
+	case expectedDesc(t, r) + " v2":
+		return 2
+	}
+	return 0
 }
 
 func expectedDesc(t, r string) string {
@@ -118,7 +132,8 @@ func absDiscovery(d *model.NodeManagementDetailedDiscoveryDataType, localDev str
 			f.Fns = append(f.Fns, TFn{Fn: treeFnAbs(*sf.Function), R: sf.PossibleOperations.Read != nil, W: sf.PossibleOperations.Write != nil})
 		}
 		if dynamicEnt(e) {
-			if fd.Description == nil || string(*fd.Description) != expectedDesc(f.Type, f.Role) {
+			f.Desc = descVersion(fd.Description, f.Type, f.Role)
+			if f.Desc == 0 {
 				f.Type += "!description"
 			}
 			t.Feats = append(t.Feats, f)
@@ -205,6 +220,12 @@ func treeReplay(args []string) {
 							f.AddFunctionType(treeFn[a.str("fn")], a.boolean("r"), a.boolean("w"))
 						}
 					}
+				case "setdesc":
+					if ent, ok := ents[e]; ok {
+						if f := ent.FeatureOfAddress(ptr(model.AddressFeatureType(a.num("no")))); f != nil && !isNilIface(f) {
+							f.SetDescriptionString(expectedDesc(string(f.Type()), string(f.Role())) + " v2")
+						}
+					}
 				case "addent":
 					if ent, ok := ents[e]; ok && s.dev.Entity(entAddr(e)) == nil {
 						s.dev.AddEntity(ent)
@@ -280,6 +301,7 @@ func treeReplay(args []string) {
 				line.Tree.Ents = append(line.Tree.Ents, e)
 				for _, f := range ent.Features() {
 					tf := TFeat{E: e, No: int(*f.Address().Feature), Type: string(f.Type()), Role: string(f.Role()), Fns: []TFn{}}
+					tf.Desc = descVersion(f.Description(), tf.Type, tf.Role)
 					for fn, op := range f.Operations() {
 						tf.Fns = append(tf.Fns, TFn{Fn: treeFnAbs(fn), R: op.Read(), W: op.Write()})
 					}
